@@ -1,4 +1,5 @@
 import PanderaModel.Lemmas.Frame
+import PanderaModel.Generated.BuiltinChecks
 /-!
 # C01 — validation verdict equals the declared schema semantics (pandas)
 
@@ -77,6 +78,52 @@ example : ∃ (S : Schema) (D : Frame), D.WF = true ∧ NoK_C01 S D ∧ ¬ Spec.
   ⟨{ columns := [{ name := some "a", dtype := some .int64, checks := [{ b := .gt (.int 0) }] }] },
    { cols := [⟨"a", .int64, [.int 1, .int 0]⟩], index := [⟨none, .int64, [.int 0, .int 1]⟩], nrows := 2 },
    by decide, by unfold NoK_C01; decide, by decide⟩
+
+end C01
+end Pandera
+
+namespace Pandera
+namespace C01
+open Generated
+
+/-- guards enforced by the `Check.<name>` constructors -/
+def builtinValid : Builtin → Bool
+  | .strLength lo hi => lo.isSome || hi.isSome
+  | _ => true
+
+/-- **C01 (built-ins).** Every built-in check body, as translated from
+`backends/pandas/builtin_checks.py` on this run, computes the documented predicate — for all
+arguments and all values (nulls and non-strings included). -/
+theorem pandas_builtin_eq_docPred (b : Builtin) (v : Val) (hv : builtinValid b = true) :
+    evalVia pandasBuiltins b v = docPred b v := by
+  cases b with
+  | eq a => simp [evalVia, lookupCE, pandasBuiltins, Builtin.pyName, Builtin.pyArgs, CE.eval, operandVal, cmpVals, docPred]
+  | ne a => simp [evalVia, lookupCE, pandasBuiltins, Builtin.pyName, Builtin.pyArgs, CE.eval, operandVal, cmpVals, docPred]
+  | gt a => simp [evalVia, lookupCE, pandasBuiltins, Builtin.pyName, Builtin.pyArgs, CE.eval, operandVal, cmpVals, docPred]
+  | ge a => simp [evalVia, lookupCE, pandasBuiltins, Builtin.pyName, Builtin.pyArgs, CE.eval, operandVal, cmpVals, docPred]
+  | lt a => simp [evalVia, lookupCE, pandasBuiltins, Builtin.pyName, Builtin.pyArgs, CE.eval, operandVal, cmpVals, docPred]
+  | le a => simp [evalVia, lookupCE, pandasBuiltins, Builtin.pyName, Builtin.pyArgs, CE.eval, operandVal, cmpVals, docPred]
+  | inRange lo hi il ih =>
+    cases il <;> cases ih <;>
+      simp [evalVia, lookupCE, pandasBuiltins, Builtin.pyName, Builtin.pyArgs, CE.eval, operandVal, cmpVals, docPred]
+  | isin vs => simp [evalVia, lookupCE, pandasBuiltins, Builtin.pyName, Builtin.pyArgs, CE.eval, docPred]
+  | notin vs => simp [evalVia, lookupCE, pandasBuiltins, Builtin.pyName, Builtin.pyArgs, CE.eval, docPred]
+  | strMatches p =>
+    simp [evalVia, lookupCE, pandasBuiltins, Builtin.pyName, Builtin.pyArgs, CE.eval, docPred]
+    cases v.str? <;> rfl
+  | strContains p =>
+    simp [evalVia, lookupCE, pandasBuiltins, Builtin.pyName, Builtin.pyArgs, CE.eval, docPred]
+    cases v.str? <;> rfl
+  | strStartswith s =>
+    simp [evalVia, lookupCE, pandasBuiltins, Builtin.pyName, Builtin.pyArgs, CE.eval, docPred]
+    cases v.str? <;> rfl
+  | strEndswith s =>
+    simp [evalVia, lookupCE, pandasBuiltins, Builtin.pyName, Builtin.pyArgs, CE.eval, docPred]
+    cases v.str? <;> rfl
+  | strLength lo hi =>
+    cases lo <;> cases hi <;> simp [builtinValid] at hv <;>
+      simp [evalVia, lookupCE, pandasBuiltins, Builtin.pyName, Builtin.pyArgs, CE.eval, docPred, optNat, cmpNat] <;>
+      cases v <;> simp [Val.str?, optAnd, Bool.and_comm]
 
 end C01
 end Pandera
